@@ -14,6 +14,9 @@ import Asn1Model.Constraints
 import Asn1Model.TypeCheck
 import Asn1Model.Cache
 import Asn1Model.X696
+import Asn1Model.X690Value
+import Asn1Model.X690
+import Asn1Model.X690Strict
 /-
   Line protocol: one request per line `op<TAB>arg...`, args are S-expressions.
   One answer line per request.  Everything printed is canonical.
@@ -224,6 +227,12 @@ def opSpec (args : List Sx) : String :=
         match X696.encode ty val with
         | .ok bs => "ok " ++ (if bs.isEmpty then "-" else toHex bs) ++ dev
         | .error e => "err " ++ uperErr e ++ dev
+      | "der" =>
+        let names := (if hasType ty val then [] else ["untyped"]) ++ X690.deviations ty val
+        let dev := " dev=(" ++ " ".intercalate names ++ ")"
+        match X690.derEncode ty val with
+        | .ok bs => "ok " ++ (if bs.isEmpty then "-" else toHex bs) ++ dev
+        | .error e => "err " ++ uperErr e ++ dev
       | _ => "bad-codec"
     | none, _ => "bad-type"
     | _, none => "bad-value"
@@ -377,6 +386,53 @@ def opRt (args : List Sx) : String :=
         | .ok (w, r) =>
           hyps ++ s!" enc=ok dec=ok value={b2s (w == canon ty val)} rest={b2s (r == rest)}"
     | _, _ => "bad-args"
+  | _ => "bad-args"
+
+/-- `rtder <der|ber> <ty> <val>`: hypotheses and conclusion of the BER/DER round-trip theorem -/
+def opRtDer (args : List Sx) : String :=
+  match args with
+  | [.atom codec, t, v] =>
+    match sxTy? t, sxVal? v with
+    | some ty, some val =>
+      let hyps := s!"wf={b2s (ty.wf && Oer.oerWf ty)} defaults={b2s (X690.defaultsOkV ty)} hasType={b2s (hasType ty val)}"
+      match Der.encode ty val with
+      | .error e => hyps ++ " enc=err:" ++ uperErr e
+      | .ok bytes =>
+        let rest : Bytes := [0, 0, 255]
+        let r := if codec == "ber" then BerCodec.decodeWithLength ty (bytes ++ rest)
+                 else Der.decodeWithLength ty (bytes ++ rest)
+        match r with
+        | .error e => hyps ++ " enc=ok dec=err:" ++ uperErr e
+        | .ok (w, k) =>
+          hyps ++ s!" enc=ok dec=ok value={b2s (w == X690.canonV ty val)} rest={b2s (k == bytes.length)}"
+    | _, _ => "bad-args"
+  | _ => "bad-args"
+
+/-- `refdec <ty> <hex>`: the reference BER decoder `X690.berDecodeRef` -/
+def opRefDec (args : List Sx) : String :=
+  match args with
+  | [t, .atom h] =>
+    match sxTy? t, fromHex (if h == "-" then "" else h) with
+    | some ty, some bs =>
+      match X690.berDecodeRef ty bs with
+      | some v => "ok " ++ valToStr v
+      | none => "none"
+    | none, _ => "bad-type"
+    | _, none => "bad-hex"
+  | _ => "bad-args"
+
+/-- `refdecs <ty> <hex>`: the strict reference decoder (reference decoder minus the named C04
+deviations of the code) -/
+def opRefDecStrict (args : List Sx) : String :=
+  match args with
+  | [t, .atom h] =>
+    match sxTy? t, fromHex (if h == "-" then "" else h) with
+    | some ty, some bs =>
+      match X690.berDecodeRefStrict ty bs with
+      | some v => "ok " ++ valToStr v
+      | none => "none"
+    | none, _ => "bad-type"
+    | _, none => "bad-hex"
   | _ => "bad-args"
 
 end Asn1.Proto
